@@ -66,5 +66,17 @@ def transform_strings(tier, seed):
         if tuple(back) != tuple(A):
             res.findings.append(Finding(key="transform.strings:round-trip", text=f"{A} serialises as {A.tostring()!r} which parses back as {back}", replay=dict(matrix=list(A)), confirmed=True))
             break
+    # matrices with structure: unit diagonal with (equal / opposite / single) off-diagonal terms, pure translations, unit scale with a
+    # shear - the shapes a "is this just a translation / a scale?" shortcut in the printer can get wrong
+    vals = (0.0, 0.5, -0.5, 1.0, 2.0)
+    for b in vals:
+        for c in vals:
+            for a, d in ((1.0, 1.0), (1.0, 2.0), (-1.0, 1.0), (0.0, 0.0)):
+                for e, f in ((0.0, 0.0), (100.0, 20.0), (0.0, -3.5)):
+                    A = Affine2D(a, b, c, d, e, f)
+                    res.evaluations += 1
+                    back = Affine2D.fromstring(A.tostring())
+                    if tuple(back) != tuple(A) and not any(x.key == "transform.strings:round-trip" for x in res.findings):
+                        res.findings.append(Finding(key="transform.strings:round-trip", text=f"{A} serialises as {A.tostring()!r} which parses back as {back}", replay=dict(matrix=list(A)), confirmed=True))
     res.distinct_nontrivial = len(seen)
     return res
